@@ -114,17 +114,23 @@ theorem run2_void (L : Laws2 D) {em : List (Text × Source)} {W : World} {s : MS
   ⟨_, ⟨Steps.one (run2_movImm_void hc), rfl, rfl, rfl, rfl, LiveEq.refl _, hw, VR2.void L _ _ _, hi,
     Ext2.refl L _ _⟩⟩
 
-/-- constants and quoted atoms -/
-theorem run2_atom (L : Laws2 D) {em : List (Text × Source)} {W : World} {s : MSt H} {σ σ' : SSt} {w : Val}
-    {d : Datum} (hd : IsAtom d) (hq : quoteVal d σ = .ok w σ')
+/-- constants and quoted data (atoms, pairs, vectors): the compile-time constant represents the value
+    `quoteVal` builds; the store grows by the copies `quoteVal` allocates, nothing else changes -/
+theorem run2_quote (L : Laws2 D) {em : List (Text × Source)} {W : World} {s : MSt H} {σ σ' : SSt} {w : Val}
+    {d : Datum} (hq : quoteVal d σ = .ok w σ')
     (hc : CodeAt2 D em s.heap σ.store s.ipL s.ipO [.op .movImm, .datum d, .acc])
     (hi : Inv2 D W s.heap σ) (hw : SWF s.stack) :
     ∃ s', Run2 D W s 3 σ σ' w s' := by
-  obtain ⟨ha, rfl⟩ := quoteVal_atom hd hq
   obtain ⟨v, hf, hl⟩ := hc.2 1 (.datum d) rfl
   have hs := step_movImm_acc hc.1 (hc.op 0 rfl) hf hl.1 (hc.accCell 2 rfl)
-  exact ⟨_, ⟨Steps.one hs, rfl, rfl, rfl, rfl, LiveEq.refl _, hw, VR2.of_atom ha (hl.2 w ha), hi,
-    Ext2.refl L _ _⟩⟩
+  obtain ⟨hvr, eff⟩ := quote_rep (quoteLaws_of L) hl.2 hq
+  have hse := StoreExt.ofStorePrefix eff.store
+  have hx := Ext2.storeOnly L s.heap hse
+  have hinv : Inv2 D W s.heap σ' :=
+    hi.frame hx (L.srx_store _ _ _ hse hi.extra) eff.globals (fun _ => rfl) (fun e n l hW => ⟨rfl, by
+      obtain ⟨_, u, _, _, h3, _⟩ := hi.vars e n l hW
+      rw [eff.store l _ h3, h3]⟩)
+  exact ⟨_, ⟨Steps.one hs, rfl, rfl, rfl, rfl, LiveEq.refl _, hw, VR2.of_quote hq hvr, hinv, hx⟩⟩
 
 /-- variable reference -/
 theorem case2_sym (L : Laws2 D) {f : Nat} {cst cst' : CState} {c : Ctx} {base : Nat} {tail : Bool} {x : Text}
